@@ -179,6 +179,16 @@ def generate(tier, rng):
             rd = [("B" if l == "b" else l) for l in dims if l not in ("c", "e")]
             cases.append(dict(stream="rank5", uni=u2, arr=arr, steps=[dict(op="set", key=key, rhs=dict(kind="arr", arr=dict(dims=rd, values=[1000 + j for j in range(8)]))),
                                                                        dict(op="get", key=dict(form="ellipsis"))]))
+    # chains: the array is first indexed by a bare item or tuple (whatever the library remembers about its dimension set is now
+    # filled in), then read with a subset Dimension, and the RESULT is indexed by bare items of the subset: the same as on a fresh array
+    uc = mk_universe((3, 2, 2), "abc")
+    for dims in (["a", "b"], ["b", "a"], ["a", "b", "c"], ["c", "a", "b"]):
+        arr = dict(dims=dims, values=[(i * 5) % 17 + 1 for i in range(nelem(uc, dims))], layout="C")
+        for sub_items, pick in ((["a2", "a0"], "a0"), (["a1", "a2"], "a2"), (["a0", "a1", "a2"], "a1")):
+            k2 = dict(form="dict", entries=[["L", "a", ["dim", subdim(uc, "a", sub_items)]]])
+            for warm in (dict(form="bare", item="a1"), dict(form="tuple", items=["b0", "a0"])):
+                for last in (dict(form="bare", item=pick), dict(form="tuple", items=[pick, "b1"])):
+                    cases.append(dict(stream="chain", coq=False, uni=_with_sub(uc, k2), arr=arr, steps=[], chain=[warm, k2, last]))
     # ambiguous items: two dimensions sharing an item
     amb = mk_universe((2, 2), "ab")
     amb["b"]["items"] = ["a0", "b1"]
@@ -205,6 +215,21 @@ def _with_sub(uni, key):
 def run_impl(case):
     uni = case["uni"]
     a = build_array(uni, case["arr"])
+    if case.get("chain"):
+        warm, k2, last = case["chain"]
+
+        def chain(with_warm_up):
+            b = build_array(uni, case["arr"])
+            if with_warm_up:
+                _ = b[py_key(uni, warm)]
+            return b[py_key(uni, k2)][py_key(uni, last)]
+        res = []
+        for w in (True, False):
+            r = observe(lambda: chain(w))
+            if r["kind"] == "ok":
+                r["value"] = observe_array(r["value"])
+            res.append(r)
+        return dict(kind="chain", warm=res[0], fresh=res[1])
     outs = []
     for st in case["steps"]:
         if st["op"] == "get":
@@ -231,6 +256,16 @@ def run_impl(case):
 def oracle(case, obs):
     uni = case["uni"]
     dims = case["arr"]["dims"]
+    if case.get("chain"):
+        w, f = obs["warm"], obs["fresh"]
+        d = " -> ".join(_short(k) for k in case["chain"][1:])
+        if f["kind"] != "ok":
+            return f"chain {d} on a fresh array refused: {f['exc']}: {f.get('msg', '')[:60]}"
+        if w["kind"] != "ok":
+            return f"chain {d} after the array was indexed by {_short(case['chain'][0])} refused: {w['exc']}: {w.get('msg', '')[:60]} (accepted on a fresh array)"
+        if w["value"] != f["value"]:
+            return f"chain {d} gives another result after the array was indexed by {_short(case['chain'][0])} than on a fresh array"
+        return None
     x = Lab.from_desc(uni, case["arr"])
     for st, o in zip(case["steps"], obs["steps"]):
         if st["op"] == "where":
